@@ -178,6 +178,11 @@ def run_case(case: dict) -> dict:
         root = d / "root"
         p = projmodel.ensure_cls(case["p"])
         m = projmodel.materialise(p, root, rnd, outside=d / "outside")
+        # every third text file gets DOS line endings (and one a lone CR LF inside): the checksum is over the bytes as they are
+        for f_ in p["files"]:
+            fp_ = root.joinpath(*f_["path"])
+            if f_["type"] == "text" and fp_.is_file() and not fp_.is_symlink() and sum(map(ord, f_["pathstr"])) % 3 == 0:
+                fp_.write_bytes(fp_.read_bytes().replace(b"\r\n", b"\n").replace(b"\n", b"\r\n"))
         projmodel.set_faults(m["faults"])
         args = ["--root", str(root)]
         if not case["mp"]:
